@@ -34,7 +34,7 @@ TLC_SEM = threading.Semaphore(4)      # pair-validating TLC runs at a time (one 
 KS_BASE = [1, 2, 7]
 K_LONG, K_HUGE = 1000, 12000
 
-# The findings of C07.  Only the zippychord reset is still open in known_findings.json; pause / os0 / kdiff / cv2 / drec
+# The findings of C07.  Only the zippychord reset and extra_waiting (xw) are still open in known_findings.json; pause / os0 / kdiff / cv2 / drec
 # were repaired in /repo (743d8bc, 594c697, 345be8d, 7d8a52c, db302df) and are listed under "fixed", so a pair showing
 # one of them is a VIOLATION again - the table then only words the diagnosis (precondition + counterfactual) in the
 # replay file.  A rejected pair is attributed to one of them only when the
@@ -58,6 +58,9 @@ FINDINGS = [
     ("drec", "C07 [may-block while a dynamic macro is being recorded",
      lambda p: p["drec"], None,
      "dynamic_macro_record_state is Some"),
+    ("xw", "C07 [may-block while a tap-hold / chord is still deciding in layout.extra_waiting",
+     lambda p: p.get("xw", 0) > 0, None,
+     "layout.extra_waiting is non-empty (is_idle only looks at layout.waiting)"),
 ]
 FKEY = {f[0]: f for f in FINDINGS}
 SIG_OF = {f[0]: f[1] for f in FINDINGS}
